@@ -1160,6 +1160,7 @@ fn type_class(dt: &DataType) -> String {
         DataType::Struct(fs) => format!("Struct<{}>", fs.iter().map(|f| type_class(f.data_type())).collect::<Vec<_>>().join(",")),
         DataType::Map(e, _) => format!("Map<{}>", type_class(e.data_type())),
         DataType::Dictionary(..) => "Enum".into(),
+        DataType::FixedSizeBinary(_) => "FixedSizeBinary".into(),
         o => format!("{o}"),
     }
 }
